@@ -26,9 +26,11 @@ type c11step struct {
 }
 
 type c11history struct {
-	Fresh bool
-	Steps []c11step
-	Kinds []string
+	Fresh  bool
+	Steps  []c11step
+	Kinds  []string
+	Bundle bool // rejections of acknowledgements are sent inside a container, in front of the next answers
+	Back   bool // every second rotation returns to the salt that was valid two rotations ago (A -> B -> A)
 }
 
 func c11histories(c *wk.Ctx) []c11history {
@@ -59,6 +61,15 @@ func c11histories(c *wk.Ctx) []c11history {
 			}
 		}
 	}
+	// back to an earlier salt; rejected acknowledgements bundled with answers
+	out = append(out,
+		c11history{Back: true, Steps: []c11step{{Announce: true}, {Rejected: 1}, {Rejected: 1}}, Kinds: []string{"object"}},
+		c11history{Back: true, Steps: []c11step{{Rejected: 1}, {Rejected: 2}, {Accepted: 1, Rejected: 1}}, Kinds: rpcKinds},
+		c11history{Back: true, Fresh: true, Steps: []c11step{{Announce: true, Accepted: 1}, {Rejected: 1}}, Kinds: rpcKinds},
+		c11history{Bundle: true, Steps: []c11step{{Accepted: 2, Rejected: 1}}, Kinds: rpcKinds},
+		c11history{Bundle: true, Steps: []c11step{{Accepted: 3, Rejected: 0, LateFirst: true}, {Accepted: 1, Rejected: 2}}, Kinds: rpcKinds},
+		c11history{Bundle: true, Fresh: true, Steps: []c11step{{Accepted: 2, Rejected: 2}}, Kinds: rpcKinds},
+		c11history{Bundle: true, Back: true, Steps: []c11step{{Accepted: 1, Rejected: 1}, {Accepted: 2, Rejected: 1}, {Accepted: 1, Rejected: 1}}, Kinds: rpcKinds})
 	out = append(out, c11history{Steps: []c11step{{Announce: true, Accepted: 1}}, Kinds: []string{"object"}},
 		c11history{Steps: []c11step{{Announce: true}, {Rejected: 2}}, Kinds: rpcKinds},
 		c11history{Fresh: true, Steps: []c11step{{Announce: true, Accepted: 2}, {Accepted: 1, Rejected: 1}}, Kinds: rpcKinds})
@@ -77,7 +88,7 @@ func c11(c *wk.Ctx) {
 	for k := 0; k < c.Pick(20, 1000); k++ {
 		if c.Mine(idx) {
 			r := c.Rand(idx)
-			h := c11history{Fresh: r.Intn(4) == 0, Kinds: rpcKinds}
+			h := c11history{Fresh: r.Intn(4) == 0, Kinds: rpcKinds, Bundle: r.Intn(3) == 0, Back: r.Intn(3) == 0}
 			for s := 1 + r.Intn(3); s > 0; s-- {
 				h.Steps = append(h.Steps, c11step{Accepted: r.Intn(4), Rejected: r.Intn(4), Announce: r.Intn(6) == 0, LateFirst: r.Intn(2) == 0})
 			}
@@ -95,6 +106,7 @@ func c11case(c *wk.Ctx, idx int, r *rand.Rand, h c11history) {
 	rejectedFrames := 0
 	hold := map[uint64]bool{}
 	sawNewSaltAt := map[int64]bool{}
+	var bundled [][]byte // bad_server_salt bodies waiting to travel with the next answer
 	var grace int64 // a salt announced by new_session_created is valid at once; the previous one stays valid until the client has acknowledged
 	graceOn := false
 	e, err := newRPCEnv(c, idx, r, envOpts{
@@ -116,7 +128,16 @@ func c11case(c *wk.Ctx, idx int, r *rand.Rand, h c11history) {
 			}
 			mu.Unlock()
 			e.w.emit("srv.reject", map[string]interface{}{"msg_id": fmt.Sprint(in.MsgID), "uid": fmt.Sprint(uid), "had_salt": fmt.Sprint(in.Salt), "salt": fmt.Sprint(cur)})
-			cn.SendEncrypted(refserver.Out{MsgID: e.srv.NextMsgID(3), SeqNo: cn.NextSeq(false), Body: refserver.BadServerSalt(in.MsgID, in.SeqNo, cur)}, cur, "bad_server_salt", nil)
+			bss := refserver.BadServerSalt(in.MsgID, in.SeqNo, cur)
+			if !ok && h.Bundle {
+				// the rejection of a message nobody waits for (an acknowledgement) is kept and sent in one container
+				// together with the next answers, in front of them
+				mu.Lock()
+				bundled = append(bundled, bss)
+				mu.Unlock()
+				return true
+			}
+			cn.SendEncrypted(refserver.Out{MsgID: e.srv.NextMsgID(3), SeqNo: cn.NextSeq(false), Body: bss}, cur, "bad_server_salt", nil)
 			return true
 		},
 		Handler: func(e *rpcEnv, p pendingReq, in *mtp.Inner) bool {
@@ -126,7 +147,7 @@ func c11case(c *wk.Ctx, idx int, r *rand.Rand, h c11history) {
 			if h {
 				return false // queue: answered later
 			}
-			e.sendGroup(p.conn, [][]byte{e.resultBody(p, wrapOpts{})}, []uint64{p.uid}, false)
+			c11send(e, p, &mu, &bundled)
 			return true
 		},
 	})
@@ -187,6 +208,7 @@ func c11case(c *wk.Ctx, idx int, r *rand.Rand, h c11history) {
 		}
 		return false
 	}
+	saltTrail := []int64{e.salt()}
 	for si, st := range h.Steps {
 		var wgA, wgR sync.WaitGroup
 		// A: accepted before the rotation, answers withheld
@@ -197,6 +219,11 @@ func c11case(c *wk.Ctx, idx int, r *rand.Rand, h c11history) {
 		}
 		// rotation
 		newSalt := int64(r.Uint64())
+		if h.Back && si%2 == 1 && len(saltTrail) >= 2 {
+			newSalt = saltTrail[len(saltTrail)-2] // back to the salt that was in force before the previous rotation
+			c.Count("rotations.back_to_earlier_salt", 1)
+		}
+		saltTrail = append(saltTrail, newSalt)
 		if st.Announce {
 			// the announcement needs a connection that has carried encrypted traffic: make one call first if needed
 			var cn *refserver.Conn
@@ -260,7 +287,7 @@ func c11case(c *wk.Ctx, idx int, r *rand.Rand, h c11history) {
 		release := func() {
 			p := e.takePending()
 			for _, q := range p {
-				e.sendGroup(q.conn, [][]byte{e.resultBody(q, wrapOpts{})}, []uint64{q.uid}, false)
+				c11send(e, q, &mu, &bundled)
 			}
 		}
 		if st.LateFirst {
@@ -353,4 +380,27 @@ func c11case(c *wk.Ctx, idx int, r *rand.Rand, h c11history) {
 	if idx%6 == 0 {
 		c.Sample(map[string]interface{}{"history": h, "rejected_frames": rejectedFrames, "calls": len(allCalls)})
 	}
+}
+
+// c11send answers one request; bad_server_salt bodies kept back for bundling go out in the same container, first.
+func c11send(e *rpcEnv, p pendingReq, mu *sync.Mutex, bundled *[][]byte) {
+	mu.Lock()
+	b := *bundled
+	*bundled = nil
+	mu.Unlock()
+	if len(b) == 0 {
+		e.sendGroup(p.conn, [][]byte{e.resultBody(p, wrapOpts{})}, []uint64{p.uid}, false)
+		return
+	}
+	e.c.Count("bundled.containers_with_rejection_first", 1)
+	var items []refserver.Out
+	for _, body := range b {
+		items = append(items, refserver.Out{MsgID: e.srv.NextMsgID(3), SeqNo: p.conn.NextSeq(false), Body: body})
+	}
+	id := e.srv.NextMsgID(1)
+	e.mu.Lock()
+	e.sentCont[id] = true
+	e.mu.Unlock()
+	items = append(items, refserver.Out{MsgID: id, SeqNo: p.conn.NextSeq(true), Body: e.resultBody(p, wrapOpts{})})
+	p.conn.SendEncrypted(refserver.Out{MsgID: e.srv.NextMsgID(1), SeqNo: p.conn.NextSeq(false), Body: refserver.Container(items)}, e.salt(), "container", map[string]interface{}{"n": len(items), "bundled_rejections": len(b), "uid": fmt.Sprint(p.uid)})
 }
